@@ -226,8 +226,7 @@ def run_property(prop_id: str, mod, tier: str, seed: int, explain: Optional[str]
                 continue
             nviol += 1
             path = os.path.join(REPLAY_DIR, f"{prop_id}-{nviol}.json")
-            with open(path, "w") as f:
-                json.dump({"property": prop_id, "key": r.key, **r.to_json()}, f, indent=1, default=str)
+            _atomic_json(path, {"property": prop_id, "key": r.key, **r.to_json()})
             out(f"  VIOLATED  {loc} {r.rule} {r.instance}: {r.detail}" + (f"  [witness: {r.witness!r}]" if r.witness is not None else "") + (f"  [{r.text}]" if r.text else ""))
             violation_lines.append(f"VIOLATION property={prop_id} replay={path}")
     nh = sum(1 for r in ctx.results if r.verdict == HOLDS)
@@ -243,6 +242,15 @@ def run_property(prop_id: str, mod, tier: str, seed: int, explain: Optional[str]
     print("\n".join(lines))
     _write_evidence(prop_id, mod, tier, seed, ctx, program, time.time() - t0, nviol=nviol)
     return status
+
+
+def _atomic_json(path, obj):
+    """Write-then-rename, so that concurrent runs of one property never leave a torn file."""
+    os.makedirs(os.path.dirname(path), exist_ok=True)
+    tmp = f"{path}.{os.getpid()}.tmp"
+    with open(tmp, "w") as f:
+        json.dump(obj, f, indent=1, default=str)
+    os.replace(tmp, path)
 
 
 def _write_evidence(prop_id, mod, tier, seed, ctx, program, wall, nviol=0, error=None):
@@ -303,5 +311,4 @@ def _write_evidence(prop_id, mod, tier, seed, ctx, program, wall, nviol=0, error
         "wall_s": round(wall, 3),
         "violations": nviol,
     }
-    with open(os.path.join(EVIDENCE_DIR, f"{prop_id}.json"), "w") as f:
-        json.dump(ev, f, indent=1, default=str)
+    _atomic_json(os.path.join(EVIDENCE_DIR, f"{prop_id}.json"), ev)
